@@ -60,6 +60,19 @@ func (a *memArena) arg(cls, name string, data []byte, spare int) []byte {
 	return back[memGuard : memGuard+len(data) : memGuard+len(data)+spare]
 }
 
+// argTail is arg with the spare capacity holding given bytes (e.g. the rest of a message that was cut short).
+func (a *memArena) argTail(cls, name string, data, tail []byte, spare int) []byte {
+	s := a.arg(cls, name, data, spare)
+	full := s[:cap(s)]
+	copy(full[len(data):], tail)
+	for _, r := range a.regions {
+		if r.name == name {
+			r.snap = append(r.snap[:0], r.buf...)
+		}
+	}
+	return s
+}
+
 // out tracks a slice handed out by the library, including its spare capacity.
 func (a *memArena) out(cls, name string, s []byte) {
 	if s == nil {
@@ -233,12 +246,22 @@ func memRun(seed int64, kind string, calls []string, fill byte) []memStep {
 				})
 			case "FinGood", "FinBad", "FinShort":
 				resp := append([]byte{}, honest...)
+				var arg []byte
 				if c == "FinBad" {
 					resp[len(resp)/2] ^= 0x10
-				} else if c == "FinShort" {
-					resp = resp[:20]
 				}
-				arg := a.arg("arg.response", fmt.Sprintf("response%d", len(steps)), resp, spare)
+				if c == "FinShort" {
+					// cut inside the last field; under one of the two fills the spare capacity behind the slice
+					// holds exactly the missing tail, under the other a pattern: the result must not depend on it
+					cut := len(resp) - 1 - (len(steps)*7)%30
+					if fill == 0x00 {
+						arg = a.argTail("arg.response", fmt.Sprintf("response%d", len(steps)), resp[:cut], resp[cut:], spare+64)
+					} else {
+						arg = a.arg("arg.response", fmt.Sprintf("response%d", len(steps)), resp[:cut], spare+64)
+					}
+				} else {
+					arg = a.arg("arg.response", fmt.Sprintf("response%d", len(steps)), resp, spare)
+				}
 				do(c, func() (string, string) {
 					toks, err := finalize(arg)
 					if err != nil {
